@@ -47,8 +47,28 @@ def run(ctx):
     plumbing(ctx)
     row_spans(ctx)
     slice_resolution(ctx)
+    engine_defaults(ctx)
     ctx.assume('arg_prune_partition returns indices whose spans cover every non-empty row of the range')
     ctx.assume('each stored pixel is processed independently (select/mask/swap/concatenate only)')
+
+
+def engine_defaults(ctx):
+    """The index column is extra: an engine / reader returns it only on request."""
+    R = 'C03.b-plumbing'
+    from ..facts import param_default
+    for q, name, want in ((f'{RQ}.DirectRangeQuery2D.__init__', 'return_index', False),
+                          (f'{RQ}.FillLowerRangeQuery2D.__init__', 'return_index', False),
+                          (f'{RQ}.CSRReader.__call__', 'return_index', False),
+                          (f'{RQ}.CSRReader.__call__', 'row_span', None),
+                          (f'{RQ}.CSRReader.__call__', 'reflect', False),
+                          (f'{RQ}.CSRReader.get_dict_meta', 'return_index', False)):
+        try:
+            got = param_default(ctx.repo, q, name)
+        except Exception:
+            got = '<no default>'
+        ctx.check(got == want, R, f'default.{q.split(".")[-2]}.{name}', ctx.where(ctx.fa(q)), found=repr(got), expected=repr(want),
+                  reason='the default is what every caller that omits the argument gets',
+                  key=f'{R}|{q}|default|{name}|{got!r}')
 
 
 # ---------------------------------------------------------------------------
